@@ -119,7 +119,24 @@ Proof.
     cbn [negb andb orb]. rewrite andb_false_r. cbn [orb].
     destruct ((c =? 10) || (c =? 13)).
     + exists p. split; [reflexivity|lia].
-    + destruct (IH (p + 1) ltac:(lia) Ht) as (q & E & Hq). exists q. split; [exact E|lia].
+    + destruct (IH (p + 1) ltac:(lia) Ht) as (q & E & Hq).
+      assert (Hcont : exists q', ctx_scan z t (p + 1) = Some q' /\ p <= q' <= len d) by (exists q; split; [exact E|lia]).
+      destruct (Z.eqb_spec c 226) as [E226|N226]; [|exact Hcont].
+      (* Peek(1), Peek(2) stay inside the buffer: the bytes before them are not 0 *)
+      destruct t as [|c1 t1].
+      { exfalso. unfold skipz in Ht.
+        assert (Hl0 : length (skipn (Z.to_nat (p + 1)) (d ++ [0])) = 0%nat) by (rewrite Ht; reflexivity).
+        rewrite skipn_length, app_length in Hl0. cbn in Hl0. unfold len in Hp, N. lia. }
+      destruct (Z.eqb_spec c1 128) as [E128|N128]; [|exact Hcont].
+      destruct (skipz_cons_peek (d ++ [0]) (p + 1) c1 t1 ltac:(lia) Ht) as (Hpk1 & Ht1 & _).
+      assert (p + 1 < len d).
+      { destruct (Z.eq_dec (p + 1) (len d)) as [E1|N1]; [|lia].
+        rewrite E1, peekz_sentinel in Hpk1. inversion Hpk1. lia. }
+      destruct t1 as [|c2 t2].
+      { exfalso. unfold skipz in Ht1.
+        assert (Hl0 : length (skipn (Z.to_nat (p + 1 + 1)) (d ++ [0])) = 0%nat) by (rewrite Ht1; reflexivity).
+        rewrite skipn_length, app_length in Hl0. cbn in Hl0. unfold len in *. lia. }
+      destruct ((c2 =? 168) || (c2 =? 169)); [exists p; split; [reflexivity|lia]|exact Hcont].
 Qed.
 
 Lemma elide_total rs col :
@@ -157,8 +174,10 @@ Section Total.
     intros Hinv Hcol. destruct (context_line_total d z Hinv) as (q & _ & _ & E).
     unfold position_context. rewrite E. cbn [option_bind].
     destruct (elide_total (go_runes (slice d (start z) q)) col) as (c & Ec & Hc). rewrite Ec. cbn [option_bind].
-    unfold render. specialize (Hc Hcol).
-    replace (6 + c_col c <? 0) with false by (symmetry; apply Z.ltb_ge; lia). eauto.
+    unfold render. specialize (Hc Hcol). cbv zeta.
+    assert (2 <= len (line_prefix line)).
+    { unfold line_prefix. rewrite len_app. change (len [58; 32]) with 2. pose proof (len_nonneg (pad_left 5 (fmt_d line))). lia. }
+    replace (len (line_prefix line) - 1 + c_col c <? 0) with false by (symmetry; apply Z.ltb_ge; lia). eauto.
   Qed.
 
   Lemma position_input_total d z offset : inv d z ->
